@@ -108,6 +108,7 @@ def tree_cases(rng, nprog, clocks):
                     for mode in MODES:
                         out.append({"clock": clock, "strategy": strat, "prog": p2,
                                     "cmds": cmds_for(rng, mode, init, 1, u), "kind": "single"})
+                        decorate(out[-1], rng, len(out))
     return out
 
 
@@ -135,7 +136,27 @@ def gen_case(rng: random.Random, i: int) -> dict:
             prog[rng.choice(hs)].append(["setstrat", strat])
         n_p = rng.choice([3, 6, 9])
         kind = "switch"
-    return {"clock": clock, "strategy": strat, "prog": prog, "cmds": cmds_for(rng, mode, init, n_p, u), "kind": kind}
+    case = {"clock": clock, "strategy": strat, "prog": prog, "cmds": cmds_for(rng, mode, init, n_p, u), "kind": kind}
+    decorate(case, rng, i)
+    return case
+
+
+LEVELS = [0, 10, 20, 30, 40, 50]
+
+
+def decorate(case, rng, i):
+    """a share of the cases: events carrying argument objects whose repr / str raise (or are very long and slow),
+    and the two-argument form set_error_strategy(strategy, log_level) at set-up and in ["setstrat", x, level]"""
+    if i % 5 == 1:
+        case["badrepr"] = "raise"
+    elif i % 40 == 3:
+        case["badrepr"] = "long"
+    if i % 3 == 1:
+        case["loglevel"] = rng.choice(LEVELS)
+    for body in case["prog"]:
+        for a in body:
+            if a[0] == "setstrat" and len(a) == 2 and rng.random() < 0.5:
+                a.append(rng.choice(LEVELS))
 
 
 def switch_cases():
@@ -146,8 +167,11 @@ def switch_cases():
         for a, b in (("pause", "log"), ("pause", "warn"), ("log", "pause"), ("warn", "pause")):
             prog = [[["sched", ["abs", 2 * u], 5, 1], ["sched", ["abs", 4 * u], 5, 2], ["sched", ["abs", 6 * u], 5, 3]],
                     [["setstrat", b]], [["sched", ["now"], 5, 3], ["fail", "runtime"]], []]
-            out.append({"clock": clock, "strategy": a, "prog": prog,
+            out.append({"clock": clock, "strategy": a, "prog": json.loads(json.dumps(prog)),
                         "cmds": [["init", 0, 0, 10 * u], ["start"], ["start"], ["start"]], "kind": "switch"})
+            if len(out) % 2 == 0:
+                out[-1]["prog"][1][0].append(LEVELS[len(out) % len(LEVELS)])      # ["setstrat", b, level]
+                out[-1]["loglevel"] = 30
     return out
 
 
@@ -156,6 +180,8 @@ def prepare(cases, obs):
     keys, uniq, base = [], {}, []
     for c in cases:
         b = {"clock": c["clock"], "strategy": "log", "prog": truncate(c["prog"]), "cmds": [c["cmds"][0], ["start"]]}
+        if "scale" in c:
+            b["scale"] = c["scale"]
         k = json.dumps(b, sort_keys=True)
         if k not in uniq:
             uniq[k] = len(base)
@@ -279,7 +305,9 @@ RULE = ("tree programs (every executed event has its own handler, <= 11 events; 
         "ZeroDivisionError, a custom Exception subclass, StopIteration and a custom BaseException subclass that is not an Exception; "
         "every seventh generated case (and 12 fixed small ones) has handlers that call set_error_strategy during the run "
         "(PAUSE <-> a continue strategy) before a handler fails - judged by the oracle with the strategy in force at the failure, "
-        "outside the Coq model (counted as cases_not_representable)")
+        "outside the Coq model (counted as cases_not_representable); a third of the cases (and half of the switches) use the "
+        "two-argument form set_error_strategy(strategy, log_level); in a fifth of the cases every other event carries an argument "
+        "object whose repr / str / format raise (a few: a 200 kB slow repr)")
 
 _tier_rng = {}
 
